@@ -29,6 +29,7 @@ THEOREMS = [
     "panic_witnesses_regression",
     "dml_atomic", "dml_atomic_at_root_unsound", "dml_all_or_nothing",
     "dml_atomic_on_silent_end", "dml_silent_end_regression",
+    "merge_join_no_partial_ok", "merge_join_err_any_position",
     "failed_dml_leaves_table", "dml_invisible_before_commit", "commit_publishes_exactly",
     "delivery_complete", "delivery_incomplete_witness",
 ]
@@ -184,7 +185,7 @@ def run(ck):
         return ck.finish(level="proof")
 
     # ---- correspondence: corpus first, then generated
-    n_cases = 40 if quick else 300
+    n_cases = 30 if quick else 300
     gen = os.path.join(ck.work, "cases.txt")
     vlib.sh([vlib.harness_bin("c15"), "gen", str(n_cases), gen])
     recs = []
@@ -202,6 +203,8 @@ def run(ck):
     nontrivial = set()
     samples = []
     first_disagree = None
+    hit_pairs = set()
+    multi_children = set()
     disagree_by_shape = {}
     nofault_by_case = {}
     for r in recs:
@@ -274,6 +277,18 @@ def run(ck):
                 dist["content_compared"]["strict-prefix-of-fault-free-rows"] += 1
             elif m["class"] == "ok":
                 dist["content_compared"]["class-and-count-only"] += 1
+            # coverage: (parent operator kind [+ join type], which child, chunk index class) hit by a fired fault
+            nfr = nofault_by_case.get(key)
+            if nfr and r["fired"] and r["node"] < len(nfr.get("parents", [])):
+                par, ci = nfr["parents"][r["node"]]
+                n_items = len(nfr["outs"][r["node"]])
+                kc = str(r["k"]) if r["k"] < 3 else ("last" if r["k"] == n_items - 1 else None)
+                if r["k"] == n_items - 1:
+                    hit_pairs.add((par, ci, "last", r["kind"]))
+                if kc is not None:
+                    hit_pairs.add((par, ci, kc, r["kind"]))
+                if n_items >= 3:
+                    multi_children.add((par, ci))
             if not r["pre_same"]:
                 info["nondeterministic-setup"] += 1
                 continue
@@ -316,6 +331,27 @@ def run(ck):
                 info["fired-%s-unreported-but-answer-complete" % r["kind"]] += 1
             if r["dml"] and r["root"] and r["class"] == "err" and not r["tables_eq_pre"]:
                 info["post-commit-injection-at-dml-task(hook artefact)"] += 1
+
+    # ---- coverage of (operator kind x child x chunk index x fault kind) with multi-chunk inputs
+    REQUIRED = ["mergejoin:inner", "mergejoin:left_outer", "hashjoin:inner", "hashjoin:left_outer", "hashjoin:right_outer",
+                "hashjoin:full_outer", "hashjoin:semi", "hashjoin:anti", "join:inner", "join:left_outer",
+                "sortagg", "hashagg", "agg", "topn", "order", "window", "filter", "proj", "limit", "insert", "delete"]
+    arity = lambda lab: 2 if lab.split(":")[0] in ("join", "hashjoin", "mergejoin") else 1
+    gaps = []
+    for lab in REQUIRED:
+        for ci in range(arity(lab)):
+            if (lab, ci) not in multi_children:
+                gaps.append("%s child %d: no executed plan feeds it >= 3 chunks" % (lab, ci))
+                continue
+            for kc in ("0", "1", "2", "last"):
+                for kind in ("error", "panic"):
+                    if (lab, ci, kc, kind) not in hit_pairs:
+                        gaps.append("%s child %d chunk %s %s: never hit" % (lab, ci, kc, kind))
+    ck.coverage["fault_pairs_hit"] = sorted("%s/child%d/chunk-%s/%s" % p for p in hit_pairs)
+    ck.coverage["fault_pair_gaps"] = gaps
+    if gaps:
+        ck.report("coverage:fault-matrix-gap", "operator kind x child x chunk index pairs that are reachable but were never hit by a fired fault: %s" % "; ".join(gaps[:6]),
+                  replay={"gaps": gaps}, found_input=False)
 
     # ---- the write transaction (roll-over of row-sets) vs the model, disk engines, INSERT statements
     txn_recs = [r for r in recs if r["type"] == "fault" and r["dml"] and r["engine"].startswith("disk")
